@@ -255,9 +255,11 @@ class DiffXReader(object):
                     if level <= prev_container_level:
                         # We're at the same section level (change -> change,
                         # or file -> file), or we went back up a level
-                        # (file -> change). Pop off the last encoding from
-                        # the stack before we push a new encoding onto it.
-                        encodings.pop()
+                        # (file -> change). Pop off the encodings of every
+                        # section we're leaving from the stack before we push
+                        # a new encoding onto it.
+                        for _i in range(prev_container_level - level + 1):
+                            encodings.pop()
 
                 # Push a newly-specified encoding (if in the options) or the
                 # parent section's encoding on the stack.
